@@ -89,10 +89,10 @@ void cache::clear(const hash_t &h)
 /// Looks for the fitness of an individual in the transposition table.
 ///
 /// \param[in] h individual's signature to look for
-/// \return      the fitness of the individual. If the individuals isn't
-///              present returns an empty fitness
+/// \return      a copy of the fitness of the individual. If the individuals
+///              isn't present returns an empty fitness
 ///
-const fitness_t &cache::find(const hash_t &h) const
+fitness_t cache::find(const hash_t &h) const
 {
   std::shared_lock lock(mutex_);
 #if defined(VITA_VERIF)
@@ -105,11 +105,13 @@ const fitness_t &cache::find(const hash_t &h) const
   verif::sp(11);
 #endif
 
+  // The value is returned by copy: the copy is made while the shared lock is
+  // still held. A reference into the table would be read by the caller after
+  // the lock has been released (data race with `insert` / `load`).
   if (ret)
     return s.fitness;
 
-  static const fitness_t empty{};
-  return empty;
+  return {};
 }
 
 ///
